@@ -20,6 +20,7 @@ import (
 	"codeberg.org/TauCeti/mangle-go/ast"
 	"codeberg.org/TauCeti/mangle-go/engine"
 	"codeberg.org/TauCeti/mangle-go/factstore"
+	"codeberg.org/TauCeti/mangle-go/functional"
 	"codeberg.org/TauCeti/mangle-go/unionfind"
 )
 
@@ -432,9 +433,10 @@ func (b *builder) buildDo(ev *Event, ruleID string, depth int) *ProofNode {
 
 // applyToNeg applies a substitution (the rule's solution) to a negated atom.
 func applyToNeg(n ast.NegAtom, subst ast.Subst) (ast.Atom, error) {
+	// Substitute and evaluate constructor expressions such as [0] or
+	// fn:pair(/a, 1), as the engine does before it looks the atom up.
 	if subst == nil {
-		return n.Atom, nil
+		return functional.EvalAtom(n.Atom, ast.ConstSubstList{})
 	}
-	applied := n.Atom.ApplySubst(subst).(ast.Atom)
-	return applied, nil
+	return functional.EvalAtom(n.Atom, subst)
 }
